@@ -904,25 +904,25 @@ package zygo
 // pops exactly those scopes; the tail self-call emits one RemoveScope per open scope.
 //@ clauseall \(\*Generator\)\.(Generate[A-Za-z]*|generateSyntaxQuote[A-Za-z]*) :: assume preserves Generator.scopes except gen
 //@ func (*Generator).Reset
-//@ C04,C09 preserves Generator.scopes except gen
-//@ C04,C09 preserves Generator.funcname
+//@ C02,C04,C09 preserves Generator.scopes except gen
+//@ C02,C04,C09 preserves Generator.funcname
 //@ func NewGenerator
-//@ C04,C09 preserves Generator.scopes
-//@ C04,C09 preserves Generator.funcname
+//@ C02,C04,C09 preserves Generator.scopes
+//@ C02,C04,C09 preserves Generator.funcname
 //@ func (*Generator).NewSubGenerator
-//@ C04,C09 preserves Generator.scopes
-//@ C04,C09 preserves Generator.funcname
+//@ C02,C04,C09 preserves Generator.scopes
+//@ C02,C04,C09 preserves Generator.funcname
 //@ func (*Generator).GenerateCond
-//@ C04,C09 assert default-arm-scope-depth @before call Generate[0]: arg0.scopes == old(gen.scopes) && arg0.funcname == old(gen.funcname)
-//@ C04,C09 assert arm-scope-depth @before call Generate[2]: arg0.scopes == old(gen.scopes) && arg0.funcname == old(gen.funcname)
-//@ C04,C09 loop 0 invariant gen.scopes == old(gen.scopes) && gen.funcname == old(gen.funcname) && subgen != gen
+//@ C02,C04,C09 assert default-arm-scope-depth @before call Generate[0]: arg0.scopes == old(gen.scopes) && arg0.funcname == old(gen.funcname)
+//@ C02,C04,C09 assert arm-scope-depth @before call Generate[2]: arg0.scopes == old(gen.scopes) && arg0.funcname == old(gen.funcname)
+//@ C02,C04,C09 loop 0 invariant gen.scopes == old(gen.scopes) && gen.funcname == old(gen.funcname) && subgen != gen
 //@ func (*Generator).GenerateShortCircuit
-//@ C04,C09 assert last-operand-scope-depth @before call Generate[0]: arg0.scopes == old(gen.scopes) && arg0.funcname == old(gen.funcname)
+//@ C02,C04,C09 assert last-operand-scope-depth @before call Generate[0]: arg0.scopes == old(gen.scopes) && arg0.funcname == old(gen.funcname)
 //@ func (*Generator).GenerateCallBySymbol
 //@ ghost lenAfterArgs := 0 - 1 @entry
 //@ ghost lenAfterArgs := len(gen.instructions) @after call GenerateCallArgsForFunction[0]
-//@ C04,C09 assert pops-all-extra-scopes @before call AddInstruction[*]: typeis(arg1, PrepareCallInstr) ==> len(arg0.instructions) == lenAfterArgs + ite(gen.scopes > 0, gen.scopes, 0)
-//@ C04,C09 loop 0 invariant 0 <= i && len(gen.instructions) == lenAfterArgs + i && i <= ite(gen.scopes > 0, gen.scopes, 0)
+//@ C02,C04,C09 assert pops-all-extra-scopes @before call AddInstruction[*]: typeis(arg1, PrepareCallInstr) ==> len(arg0.instructions) == lenAfterArgs + ite(gen.scopes > 0, gen.scopes, 0)
+//@ C02,C04,C09 loop 0 invariant 0 <= i && len(gen.instructions) == lenAfterArgs + i && i <= ite(gen.scopes > 0, gen.scopes, 0)
 
 // ===========================================================================
 // C02  compiled control flow: relative jumps land where the construct says
